@@ -462,11 +462,76 @@ impl<S: ToyScalar, const R: usize> Elem for Lin<S, R> {
 }
 
 // ---------------------------------------------------------------------------------------------
+/// (Z, +) with equality modulo q = |S|: a point is an integer weight w, standing for w * P of one formal point P.
+/// Code that uses its points only through the group operations and never looks at them (`LOOKED` below stays 0)
+/// computes sum_i c_i(scalars) * B_i with coefficients c_i that do not depend on the bases; running it on the weights
+/// (w_1, .., w_n) and finding sum_i s_i * w_i modulo q for ALL small w (the unit vectors among them) fixes c_i = s_i
+/// modulo q, i.e. the result is sum_i s_i * B_i in every abelian group of exponent q. One machine word per point, no
+/// multiplication and no reduction in the group law: scalar fields of 2 and 3 bytes are affordable.
+#[derive(Clone, Copy, Debug, PartialEq, Eq)]
+pub struct Zp<S: ToyScalar>(pub i32, pub PhantomData<S>);
+impl<S: ToyScalar> Default for Zp<S> {
+    fn default() -> Self {
+        Zp(0, PhantomData)
+    }
+}
+/// ghost: how often the code under test inspected a point (is_identity / equality / coordinates). One struct with a
+/// magic word: separate zero-initialised statics alias promoted constants under Kani 0.68 (notes/K3.md).
+pub struct Ghost {
+    pub magic: u32,
+    pub looked: u32,
+}
+pub static mut GHOST: Ghost = Ghost { magic: 0x4b34_6d73, looked: 0 };
+pub fn looked() -> u32 {
+    unsafe { GHOST.looked }
+}
+pub fn reset_looked() {
+    unsafe { GHOST.looked = 0 }
+}
+fn note_look() {
+    unsafe { GHOST.looked = GHOST.looked.saturating_add(1) }
+}
+impl<S: ToyScalar> Zp<S> {
+    pub fn w(v: i32) -> Self {
+        Zp(v, PhantomData)
+    }
+    /// equality as group elements, for the harness (does not count as a look)
+    pub fn congruent(&self, o: &Self) -> bool {
+        self.0 == o.0 || (self.0 - o.0) % (S::Q as i32) == 0
+    }
+}
+impl<S: ToyScalar> Elem for Zp<S> {
+    type Base = F13;
+    type Scalar = S;
+    fn id() -> Self {
+        Zp(0, PhantomData)
+    }
+    fn is_id(&self) -> bool {
+        note_look();
+        self.0 % (S::Q as i32) == 0
+    }
+    fn gadd(self, o: Self) -> Self {
+        Zp(self.0 + o.0, PhantomData)
+    }
+    fn gneg(self) -> Self {
+        Zp(-self.0, PhantomData)
+    }
+    fn same(&self, o: &Self) -> bool {
+        note_look();
+        self.congruent(o)
+    }
+    fn xy(&self) -> Option<(F13, F13)> {
+        note_look();
+        unimplemented!()
+    }
+}
+
+// ---------------------------------------------------------------------------------------------
 // the CurveAffine / CurveExt pair over an `Elem`
 // (the scalar field is a second type parameter, always `S`, only so that `Mul<S>` and `Mul<&S>` are coherent)
-#[derive(Clone, Copy, Debug, Default, PartialEq, Eq)]
+#[derive(Clone, Copy, Debug, Default)]
 pub struct GA<E: Elem, S = <E as Elem>::Scalar>(pub E, pub PhantomData<S>);
-#[derive(Clone, Copy, Debug, Default, PartialEq, Eq)]
+#[derive(Clone, Copy, Debug, Default)]
 pub struct GJ<E: Elem, S = <E as Elem>::Scalar>(pub E, pub PhantomData<S>);
 impl<S: ToyScalar, E: Elem<Scalar = S>> GA<E, S> {
     pub fn new(e: E) -> Self {
@@ -481,6 +546,12 @@ impl<S: ToyScalar, E: Elem<Scalar = S>> GJ<E, S> {
 
 macro_rules! ct_impls {
     ($T:ident) => {
+        impl<S: ToyScalar, E: Elem<Scalar = S>> PartialEq for $T<E, S> {
+            fn eq(&self, o: &Self) -> bool {
+                self.0.same(&o.0)
+            }
+        }
+        impl<S: ToyScalar, E: Elem<Scalar = S>> Eq for $T<E, S> {}
         impl<S: ToyScalar, E: Elem<Scalar = S>> ConstantTimeEq for $T<E, S> {
             fn ct_eq(&self, o: &Self) -> Choice {
                 Choice::from(self.0.same(&o.0) as u8)
